@@ -5,4 +5,3 @@ CONSTANTS
   NInst = 2
   Footprints <- FpReadOnly
 INVARIANTS TypeOK NoRace Deterministic
-PROPERTIES Finishes
